@@ -352,7 +352,9 @@ func cellAccesses(cell *ssa.Alloc) (stores []*ssa.Store, loads []*ssa.UnOp, ok b
 			switch x := r.(type) {
 			case *ssa.Store:
 				if x.Addr == addr {
-					stores = append(stores, x)
+					if !selfStores[x] {
+						stores = append(stores, x)
+					}
 				} else {
 					ok = false // address stored somewhere
 				}
